@@ -1404,3 +1404,135 @@ theorem ackS_run {par : Nat → Sess} {P : Nat → Nat → Nat → Prop} (hp : P
     omega
 
 end Coap.Sim
+
+/-! ## a concluded message is never sent again -/
+namespace Coap.Timer
+
+/-- S: number of transmissions (first or repeated) of (s, mid) -/
+def txS (s mid : Nat) : List TOut → Nat
+  | [] => 0
+  | o :: r => (match o with
+      | .tx _ s' m' _ _ _ _ => if s' = s ∧ m' = mid then 1 else 0
+      | _ => 0) + txS s mid r
+
+theorem fire_quiet (s mid : Nat) (f : Nat) (ts : TS) (h : pc s mid ts.pend = 0) :
+    txS s mid (fire f ts).outs = txS s mid ts.outs ∧ pc s mid (fire f ts).pend = 0 := by
+  induction f generalizing ts with
+  | zero => exact ⟨rfl, h⟩
+  | succ f ih =>
+    rcases ts with ⟨now, pend, outs⟩
+    rcases pend with _ | ⟨⟨d, m⟩, r⟩
+    · exact ⟨rfl, h⟩
+    · simp only [pc] at h
+      have hm : ¬ (m.sess = s ∧ m.mid = mid) := by
+        intro hm; simp [hm] at h
+      have hr : pc s mid r = 0 := by omega
+      simp only [fire]
+      split
+      · split
+        · have := ih ⟨now, pinsert r (now + m.T * 2 ^ (m.cnt + 1), { m with cnt := m.cnt + 1 }),
+              TOut.tx now m.sess m.mid (m.cnt + 1) m.t0 m.T m.maxRtx :: outs⟩
+            (by simp only [pc_pinsert, hm, if_false, hr])
+          rw [this.1]
+          exact ⟨by simp [txS, hm], this.2⟩
+        · have := ih ⟨now, r, TOut.nackRetries now m.sess m.mid :: outs⟩ hr
+          rw [this.1]
+          exact ⟨by simp [txS], this.2⟩
+      · exact ⟨rfl, by simp only [pc, hm, if_false, hr]⟩
+
+theorem step_quiet (s mid : Nat) (ts : TS) (ev : TEv) (h : pc s mid ts.pend = 0) (hs : sendW s mid ev = 0) :
+    txS s mid (step ts ev).outs = txS s mid ts.outs ∧ pc s mid (step ts ev).pend = 0 := by
+  cases ev with
+  | send s' m' T mx =>
+    have hm : ¬ (s' = s ∧ m' = mid) := by
+      intro hm; simp [sendW, hm] at hs
+    simp only [step, pc_pinsert, hm, if_false, h, txS]
+    simp
+  | tick now' =>
+    simp only [step]
+    split
+    · exact fire_quiet s mid _ { ts with now := now' } h
+    · exact ⟨rfl, h⟩
+  | ack s' m' =>
+    have hp := pc_premove s mid s' m' ts.pend
+    simp only [step]
+    rcases hr : premove ts.pend s' m' with ⟨_ | m, r⟩
+    · exact ⟨rfl, h⟩
+    · rw [hr] at hp
+      simp only [] at hp ⊢
+      exact ⟨by simp [txS], by omega⟩
+  | rst s' m' =>
+    have hp := pc_premove s mid s' m' ts.pend
+    simp only [step]
+    rcases hr : premove ts.pend s' m' with ⟨_ | m, r⟩
+    · exact ⟨rfl, h⟩
+    · rw [hr] at hp
+      simp only [] at hp ⊢
+      exact ⟨by simp [txS], by omega⟩
+
+/-- S: once nothing of (s, mid) is pending and it is not sent again, it is never transmitted again -/
+theorem run_quiet (s mid : Nat) (evs : List TEv) (ts : TS) (h : pc s mid ts.pend = 0) (hs : sc s mid evs = 0) :
+    txS s mid (run ts evs).outs = txS s mid ts.outs ∧ pc s mid (run ts evs).pend = 0 := by
+  induction evs generalizing ts with
+  | nil => exact ⟨rfl, h⟩
+  | cons ev evs ih =>
+    simp only [sc] at hs
+    have h1 := step_quiet s mid ts ev h (by omega)
+    have h2 := ih (step ts ev) h1.2 (by omega)
+    simp only [run, List.foldl_cons] at h2 ⊢
+    exact ⟨by rw [h2.1, h1.1], h2.2⟩
+
+end Coap.Timer
+
+namespace Coap.Sim
+open Coap Coap.SQ Coap.Msg Coap.Timer
+
+/-- M: number of transmissions (first or repeated) of (s, mid) -/
+def txC (s mid : Nat) : List Out → Nat
+  | [] => 0
+  | o :: r => (match o with
+      | .tx _ s' m' _ _ => if s' = s ∧ m' = mid then 1 else 0
+      | _ => 0) + txC s mid r
+
+def obsT (s mid : Nat) : List Obs → Nat
+  | [] => 0
+  | o :: r => (match o with
+      | .tx _ s' m' _ _ => if s' = s ∧ m' = mid then 1 else 0
+      | _ => 0) + obsT s mid r
+
+theorem txS_obs (s mid : Nat) (outs : List TOut) : txS s mid outs = obsT s mid (outs.filterMap obsS) := by
+  induction outs with
+  | nil => rfl
+  | cons o r ih => cases o <;> simp [txS, obsS, obsT, List.filterMap_cons, ih]
+
+theorem txC_obs (s mid : Nat) (out : List Out) : txC s mid out = obsT s mid (out.filterMap obsM) := by
+  induction out with
+  | nil => rfl
+  | cons o r ih =>
+    cases o with
+    | nack t s' reason m' known => cases reason <;> cases known <;> simp [txC, obsM, obsT, List.filterMap_cons, ih]
+    | _ => simp [txC, obsM, obsT, List.filterMap_cons, ih]
+
+theorem runIn_append (l : L) (a b : List Ev) : RunIn l (a ++ b) ↔ RunIn l a ∧ RunIn (Msg.run l a) b := by
+  induction a generalizing l with
+  | nil => simp [RunIn, Msg.run]
+  | cons e a ih =>
+    simp only [List.cons_append, RunIn, Msg.run, List.foldl_cons]
+    rw [ih]
+    simp only [Msg.run, and_assoc]
+
+/-- M: from an in-scope state in which nothing of (s, mid) is queued, a run that does not submit (s, mid) again
+never transmits it -/
+theorem quiet_sim {par : Nat → Sess} {P : Nat → Nat → Nat → Prop} (hp : ParOk par) (s mid : Nat) (evs : List Ev)
+    (l : L) (ts : TS) (hi : Inv par P l) (hr : Rel (mxOf par) l ts) (hin : RunIn l evs)
+    (hP : ∀ s mid r, Ev.submit s true mid r ∈ evs → P s mid (calcTimeout (par s).atI (par s).atF (par s).arfI (par s).arfF r))
+    (h0 : pendC s mid l.q.nodes = 0) (hs : subC s mid evs = 0) :
+    txC s mid (Msg.run l evs).out = txC s mid l.out ∧ pendC s mid (Msg.run l evs).q.nodes = 0 := by
+  obtain ⟨_, hr2, _⟩ := run_sim hp evs l ts hi hr hin hP
+  have hpc : pc s mid ts.pend = 0 := by rw [← pc_er, hr.pend, pc_absP]; exact h0
+  have hq := run_quiet s mid (trRun l evs) ts hpc (by rw [sc_trRun]; exact hs)
+  constructor
+  · rw [txC_obs, ← hr2.outs, ← txS_obs, hq.1, txS_obs, hr.outs, ← txC_obs]
+  · rw [← pc_absP s mid (mxOf par) (Msg.run l evs).q.base, ← hr2.pend, pc_er]; exact hq.2
+
+end Coap.Sim
